@@ -219,6 +219,12 @@ var (
 )
 
 func formatBoth(e *log.Event, w int) (j, x []byte, p any) {
+	var alias any
+	defer func() {
+		if p == nil {
+			p = alias
+		}
+	}()
 	p = vk.Catch(func() {
 		jl, tl := jsonLayouts[w], textLayouts[w]
 		if jl == nil {
@@ -235,9 +241,9 @@ func formatBoth(e *log.Event, w int) (j, x []byte, p any) {
 		_ = tl.ToBytes(laterEvent)
 		_ = jl.ToBytes(laterEvent)
 		if !bytes.Equal(rj, j) {
-			p = fmt.Sprintf("(not a panic) the JSON line handed out by ToBytes changed while later events were formatted (bufferCap=%d, len=%d cap=%d): now %q", log.BufferCap.Load(), len(rj), cap(rj), clipB(rj))
+			alias = fmt.Sprintf("(not a panic) the JSON line handed out by ToBytes changed while later events were formatted (bufferCap=%d, len=%d cap=%d): now %q", log.BufferCap.Load(), len(rj), cap(rj), clipB(rj))
 		} else if !bytes.Equal(rx, x) {
-			p = fmt.Sprintf("(not a panic) the text line handed out by ToBytes changed while later events were formatted (bufferCap=%d, len=%d cap=%d): now %q", log.BufferCap.Load(), len(rx), cap(rx), clipB(rx))
+			alias = fmt.Sprintf("(not a panic) the text line handed out by ToBytes changed while later events were formatted (bufferCap=%d, len=%d cap=%d): now %q", log.BufferCap.Load(), len(rx), cap(rx), clipB(rx))
 		}
 	})
 	return
